@@ -634,18 +634,49 @@ func c16Extra(c *Ctx) {
 				}
 				return false
 			}
+			insertsOrCloses := func(x ssa.Instruction) bool {
+				if mu, ok := x.(*ssa.MapUpdate); ok && loadedFromField(mu.Map, "Hub", "connections") {
+					return true
+				}
+				return closes(x)
+			}
+			// a helper of the loop that is handed the received connection does the registering: it is held to the
+			// obligation on all of its own paths, and the call counts as done in the loop
+			var helper *ssa.Function
 			q := &pathQuery{fn: run, target: func(x ssa.Instruction) bool {
 				if _, isSel := x.(*ssa.Select); isSel {
 					return true
 				}
 				return isReturn(x)
 			}, stop: func(x ssa.Instruction) bool {
-				if mu, ok := x.(*ssa.MapUpdate); ok && loadedFromField(mu.Map, "Hub", "connections") {
+				if insertsOrCloses(x) {
 					return true
 				}
-				return closes(x)
+				if cl, ok := x.(*ssa.Call); ok {
+					if sf := staticFn(cl); sf != nil && sf.Pkg != nil && sf.Pkg.Pkg.Path() == wsPath && len(sf.Blocks) > 0 {
+						for _, a := range cl.Call.Args {
+							if a == ssa.Value(ex) {
+								inserts := false
+								eachInstr(sf, func(_ *ssa.BasicBlock, _ int, y ssa.Instruction) {
+									if mu, ok := y.(*ssa.MapUpdate); ok && loadedFromField(mu.Map, "Hub", "connections") {
+										inserts = true
+									}
+								})
+								if inserts {
+									helper = sf
+									return true
+								}
+							}
+						}
+					}
+				}
+				return false
 			}}
 			hit, path := q.after(ins)
+			if hit == nil && helper != nil {
+				qh := &pathQuery{fn: helper, target: isReturn, stop: insertsOrCloses}
+				hit, path = qh.fromEntry()
+			}
 			c.ob("C16-R2", fnKey(run)+"#refused-connection-is-finished-"+itoa(k), ins.Pos(), hit == nil, "a connection received for registration can be dropped (the limit is reached) without being registered and without its send channel being closed: its pumps have been started all the same, its unregister is ignored because it was never registered, so the write pump waits on the send channel for ever and Server.Shutdown waits for the pump", c.blockPath(path)...)
 		})
 	}
@@ -1079,6 +1110,67 @@ func freshFromRegister(ins ssa.Instruction) bool {
 		return false
 	}
 	return derivesFrom(cl.Call.Args[0], func(v ssa.Value) bool {
+		// in a helper of the loop: the connection it is handed, when every caller hands over what it received from register
+		if p, ok := v.(*ssa.Parameter); ok && p.Parent() != nil && p.Parent().Pkg != nil {
+			fn := p.Parent()
+			pi := -1
+			for i, fp := range fn.Params {
+				if fp == p {
+					pi = i
+				}
+			}
+			sites, fresh := 0, 0
+			for _, g := range allPkgFuncs(fn.Pkg) {
+				eachCall(g, func(cs ssa.CallInstruction) {
+					if staticFn(cs) != fn || pi < 0 || pi >= len(cs.Common().Args) {
+						return
+					}
+					sites++
+					if isRegisterExtract(cs.Common().Args[pi]) {
+						fresh++
+					}
+				})
+			}
+			return sites > 0 && sites == fresh
+		}
+		return isRegisterExtract(v)
+	})
+}
+
+// allPkgFuncs: the functions and methods of an SSA package, with their closures.
+func allPkgFuncs(p *ssa.Package) []*ssa.Function {
+	var out []*ssa.Function
+	seen := map[*ssa.Function]bool{}
+	var add func(f *ssa.Function)
+	add = func(f *ssa.Function) {
+		if f == nil || seen[f] {
+			return
+		}
+		seen[f] = true
+		out = append(out, f)
+		for _, a := range f.AnonFuncs {
+			add(a)
+		}
+	}
+	for _, m := range p.Members {
+		switch x := m.(type) {
+		case *ssa.Function:
+			add(x)
+		case *ssa.Type:
+			for _, t := range []types.Type{x.Type(), types.NewPointer(x.Type())} {
+				ms := p.Prog.MethodSets.MethodSet(t)
+				for i := 0; i < ms.Len(); i++ {
+					add(p.Prog.MethodValue(ms.At(i)))
+				}
+			}
+		}
+	}
+	return out
+}
+
+// isRegisterExtract: v is the value the hub loop's select received from Hub.register.
+func isRegisterExtract(v ssa.Value) bool {
+	return derivesFrom(v, func(v ssa.Value) bool {
 		ex, ok := v.(*ssa.Extract)
 		if !ok {
 			return false
